@@ -1,3 +1,4 @@
+import os
 """gosym core: symbolic execution of go/ssa (JSON form) with state merging at post-dominators."""
 import sys
 import math
@@ -87,6 +88,9 @@ class Executor(object):
         self.linear_normalize = False
         self.effect_seen = set()
         self.varsets = {}
+        self.feas_timeout_ms = 20000
+        self.feas_giveup = {}
+        self.last_feas_unknown = False
         self.pin_consts = False
         self.fp_mode = False
         self.candidates = []
@@ -304,12 +308,13 @@ class Executor(object):
         if r is None:
             self.stats['feas_queries'] += 1
             sv = z3.Solver()
-            sv.set('timeout', 20000)
+            sv.set('timeout', self.feas_timeout_ms)
             for x in pc:
                 sv.add(x)
             sv.add(c)
             res = sv.check()
             r = (res != z3.unsat)
+            self.last_feas_unknown = (res == z3.unknown)
             self.feas_cache[key] = r
             pin(c, *pc)
         return r
@@ -476,8 +481,24 @@ class Executor(object):
                     nc = b_not(c)
                     ft = ff = True
                     if fn.loopctl[b]:
-                        ft = self.feasible(st.pc, c)
-                        ff = self.feasible(st.pc, nc)
+                        _t0 = time.time()
+                        fk = (fn.name, b)
+                        if self.feas_giveup.get(fk, 0) >= 2:
+                            # the solver could not decide the last two feasibility questions at this branch: stop asking
+                            # (both successors are kept, which is always sound; the loop stays bounded by its unwind limit)
+                            ft = ff = True
+                        else:
+                            self.last_feas_unknown = False
+                            ft = self.feasible(st.pc, c)
+                            u1 = self.last_feas_unknown
+                            self.last_feas_unknown = False
+                            ff = self.feasible(st.pc, nc)
+                            if u1 or self.last_feas_unknown:
+                                self.feas_giveup[fk] = self.feas_giveup.get(fk, 0) + 1
+                            else:
+                                self.feas_giveup[fk] = 0
+                        if os.environ.get('DBG') and time.time() - _t0 > 1:
+                            print('slow feasibility %.1fs %s b%d %s' % (time.time() - _t0, fn.name, b, ins.get('pos', '')), ft, ff, str(c)[:300])
                         if ft and ff:
                             k = fr.symcount.get(b, 0) + 1
                             fr.symcount[b] = k
